@@ -100,6 +100,32 @@ async fn run_unit(engine: &QueryEngine, case: &UnitCase) -> String {
     }
 }
 
+/// the ColumnPredicates the implementation extracts for the case
+async fn impl_preds(engine: &QueryEngine, case: &UnitCase) -> Option<Vec<cardinalsin::metadata::ColumnPredicate>> {
+    match case.mode {
+        Mode::Sql => engine.extract_column_predicates(&unit_sql(case)).await.ok(),
+        Mode::Plan => build_plan(case).ok().map(|p| QueryEngine::verif_predicates_of_plan(&p)),
+    }
+}
+
+/// Independent unit-level oracles for one case: (a) the extracted time range,
+/// through a real QueryNode over one-row chunks; (b) the pushed-down predicates,
+/// through the statistics gate on truthful one-row chunk statistics.
+async fn unit_oracles(engine: &QueryEngine, case: &UnitCase, thorough_probe: bool) -> Vec<(String, serde_json::Value)> {
+    let mut out = Vec::new();
+    if let Some(preds) = impl_preds(engine, case).await {
+        if let Some(w) = e2e::gate_oracle(case, &preds, thorough_probe).await {
+            out.push(("a pushed-down column predicate prunes a chunk that holds a row matching the WHERE clause".to_string(), w));
+        }
+    }
+    if thorough_probe {
+        if let Some(sql) = e2e::oracle_for_unit(case).await {
+            out.push((format!("QueryNode::query answer differs from the full scan: {}", sql), json!({"failing_sql": sql})));
+        }
+    }
+    out
+}
+
 fn unit_json(case: &UnitCase) -> serde_json::Value {
     json!({
         "level": "unit",
@@ -138,6 +164,7 @@ fn main() {
         let mut r = rng.fork();
         cases.push(("random".to_string(), gen_unit_case(&mut r)));
     }
+    let mut n_done = 0usize;
     for (origin, case) in cases {
         let line = model_line(&case);
         let nontrivial = case.filters.iter().any(|f| f.mentions_ts() || f.has_label());
@@ -162,14 +189,28 @@ fn main() {
             report.bump("unit.preds.nonempty");
         }
         report.sample(json!({"case": unit_json(&case), "impl": impl_out, "model": model_out}));
+        // cheap independent oracle on every case that pushes predicates down (also when model and code agree)
+        if !impl_out.ends_with("preds=") && !impl_out.contains("preds=ERR") {
+            for (what, w) in rt.block_on(unit_oracles(&engine, &case, false)) {
+                report.bump("unit.gate_oracle.failed");
+                let already = report.oracle_violations.iter().filter(|v| v["what"].as_str() == Some(what.as_str())).count();
+                if already < 5 {
+                    let mut cj = unit_json(&case);
+                    cj["witness"] = w;
+                    report.oracle_violation("", &what, cj);
+                    report.write(&args.out);
+                }
+            }
+            report.bump("unit.gate_oracle.evaluated");
+        }
         if differs {
             report.bump("unit.disagreements_total");
         }
         if differs && report.disagreements.len() < 20 {
-            // shrink the predicate trees, keeping the disagreement
+            // shrink the predicate trees, keeping the disagreement (bounded; the first six only)
             let mut cur = case.clone();
             let mut progress = true;
-            let mut budget = 200;
+            let mut budget = if report.disagreements.len() < 6 { 120 } else { 0 };
             while progress && budget > 0 {
                 progress = false;
                 for cand in shrink_unit(&cur) {
@@ -187,14 +228,33 @@ fn main() {
             }
             let si = rt.block_on(run_unit(&engine, &cur));
             let sm = model.ask(&model_line(&cur));
-            // does the disagreement make the implementation unsound on a concrete row?
-            let oracle_failed = rt.block_on(e2e::oracle_for_unit(&cur));
+            // does the disagreement make the implementation wrong on concrete rows?
+            let deep = report.disagreements.len() < 6;
+            let mut verdicts = rt.block_on(unit_oracles(&engine, &cur, deep));
+            if verdicts.is_empty() && model_line(&cur) != line {
+                verdicts = rt.block_on(unit_oracles(&engine, &case, deep));
+            }
+            for (what, w) in &verdicts {
+                let mut cj = unit_json(&cur);
+                cj["witness"] = w.clone();
+                report.oracle_violation("", what, cj);
+            }
             report.disagreement(json!({
                 "correspondence": "Model/TimeExtract.v (extract / plan_preds) vs QueryEngine::extract_time_range / extract_column_predicates",
                 "case": unit_json(&case), "impl": impl_out, "model": model_out,
                 "shrunk": unit_json(&cur), "shrunk_impl": si, "shrunk_model": sm,
-                "oracle_failed": oracle_failed,
+                "oracle_failed": !verdicts.is_empty(),
+                "oracle_verdicts": verdicts.iter().map(|(w, _)| w.clone()).collect::<Vec<_>>(),
             }));
+            report.write(&args.out);
+        }
+        n_done += 1;
+        if n_done % 2000 == 0 {
+            report.write(&args.out);
+        }
+        if e2e::unclassified(&report) >= e2e::MAX_UNCLASSIFIED {
+            report.notes.push(format!("unit level stopped after {} cases: {} concrete failing inputs", n_done, e2e::unclassified(&report)));
+            break;
         }
     }
 
@@ -220,7 +280,11 @@ async fn replay(case: &serde_json::Value, model: &mut Model) -> i32 {
             let i = run_unit(&engine, &uc).await;
             let m = model.ask(&line);
             println!("case : {}\nsql  : {}\nimpl : {}\nmodel: {}", line, if mode == Mode::Sql { unit_sql(&uc) } else { "(plan)".into() }, i, m);
-            if !model.is_null() && i != m { 1 } else { 0 }
+            let verdicts = unit_oracles(&engine, &uc, true).await;
+            for (what, w) in &verdicts {
+                println!("oracle: {}\n{}", what, serde_json::to_string_pretty(w).unwrap_or_default());
+            }
+            if (!model.is_null() && i != m) || !verdicts.is_empty() { 1 } else { 0 }
         }
         "e2e" | "e2e-corpus" => e2e::replay(case, model).await,
         other => {
